@@ -183,6 +183,9 @@ class Ctx:
             return {}
 
     def dv_world(self, scen_path, trace_path, nproc=4, timeout=3000, sub="world"):
+        if self.tier != "quick":
+            # thorough runs are long and the machine may be shared: more workers, a generous limit
+            nproc, timeout = max(nproc, 8), max(timeout, 6 * 3600)
         """run `dv <sub>` on the scenarios with several worker processes (each has its own instances);
         the traces are concatenated in scenario order"""
         lines = [l for l in open(scen_path).read().split("\n") if l.strip()]
